@@ -97,7 +97,8 @@ Fixpoint all2 {A B} (f : A -> B -> bool) (a : list A) (b : list B) : bool :=
   end.
 
 (* case: (number of registers, operations, observed registers, observed wait results) *)
-Definition judge_poly (c : nat * list pop * list obs_poly * list (option obs_poly)) : N :=
+Definition poly_case := (nat * list pop * list obs_poly * list (option obs_poly))%type.
+Definition judge_poly (c : poly_case) : N :=
   let '(n, ops, oregs, orets) := c in
   let st := run_ops n ops in
   code_of (all2 poly_obs_eqb (regs st) oregs && all2 ret_eqb (rets st) orets) true.
